@@ -119,7 +119,12 @@ func (l *Loader) Next() (entry *BinEntry, err error) {
 			rtype := l.ReadByteP()
 			t = rtype
 		} else {
+			// continuation chunk of a split value: it belongs to the same key, so it
+			// carries the same expiry / LRU / LFU attributes as the first chunk
 			t = l.lastEntry.Type
+			entry.ExpireAt = l.lastEntry.ExpireAt
+			entry.IdleTime = l.lastEntry.IdleTime
+			entry.Freq = l.lastEntry.Freq
 		}
 		entry.Type = t
 		switch t {
